@@ -1,7 +1,7 @@
 """C02 - local energy = <psi_T|H|phi>/<psi_T|phi> (hand-coded kinds in the Q domain; AD / finite-difference kinds in
 the graded domain: coefficient of eps^0 = oracle, coefficient of eps^1 = 0)."""
 from . import common as cm
-from . import wfcase
+from . import wfcase, c02ad
 
 META = {
     "level": "model_checking",
@@ -46,8 +46,13 @@ def cases(tier):
             # restricted entry points see only the spin average of h1 (exact for them): spin-independent h1
             out.append(dict(base, entry="r", spin_dep=0 if kind in ("rhf", "cisd", "cisd_faster") else sd))
     out += wfcase.batch_cases("C02", "energy", tier)
+    out += c02ad.cases(tier)
     return out
 
 
-run = wfcase.run
-replay = wfcase.replay
+def run(args, seed, known):
+    return c02ad.run(args, seed, known) if args.get("type") == "ad" else wfcase.run(args, seed, known)
+
+
+def replay(data):
+    return c02ad.replay(data) if data["case_args"].get("type") == "ad" else wfcase.replay(data)
